@@ -17,6 +17,11 @@ PROP_FILE = "C01_Authz"
 THEOREMS = ["c01_decision_allow", "c01_decision_deny", "c01_errors", "c01_error_not_satisfied",
             "c01_reasons", "c01_order_independent", "c01_id_spelling"]
 
+MANIFEST = {
+    "text": "Authorizer decision/reasons/errors characterised for every policy list and every per-policy evaluation function; order and id-spelling independence (7 theorems, props/C01_Authz.v). Tied to /repo by correspondence (model is_authorized vs Authorizer::is_authorized at core and API level) on the exhaustive (effect x outcome)^n space and random sets, plus an implementation-level oracle recomputing the response from the per-policy outcomes.",
+    "technique": "proof (Coq, induction over the policy list) + correspondence by differential execution",
+}
+
 T = ("lit", ("bool", True))
 F = ("lit", ("bool", False))
 
